@@ -206,3 +206,18 @@ Definition slots_eqb (a b : slots) : bool :=
   | ((a0, e0), (a1, e1)), ((b0, f0), (b1, f1)) =>
     opt_nat_eqb a0 b0 && opt_z_eqb e0 f0 && opt_nat_eqb a1 b1 && opt_z_eqb e1 f1
   end.
+
+(* ------------------------------------------------------------------ result-sharing variants for the harness *)
+Definition bh_unc (r : result (list triplet * list triplet)) : nat :=
+  match r with Ok (s, l) => (length l - length s)%nat | ErrNoBonds => 0%nat end.
+Definition wn_unc (r : result (list (list triplet) * list (list triplet))) : nat :=
+  match r with
+  | Ok (s, l) => fold_left (fun acc sl => (acc + (length (snd sl) - length (fst sl)))%nat) (combine s l) 0%nat
+  | ErrNoBonds => 0%nat
+  end.
+Definition run_ks_t (c : ks_case) : Z * option (list (bool * list (nat * Z))) :=
+  match c with (_, _, _, _, tol, _, _, _) => (tol, run_ks c) end.
+Definition check_ks_t (r : Z * option (list (bool * list (nat * Z)))) (e : ks_expected) : bool :=
+  match snd r with None => true | Some m => ks_rows_match (fst r) m e end.
+Definition ks_unc (r : Z * option (list (bool * list (nat * Z)))) : nat :=
+  match snd r with None => 0%nat | Some m => length (filter fst m) end.
